@@ -25,6 +25,12 @@ structure Obs where
   expiresInOK : Bool := true            -- expires_in agrees with the stored expiry (± 2 s + skew)
   scopeOK : Bool := true                -- `scope` in the response equals the stored scopes
   atUserClaims : List String := []      -- private (non-registered) claim names present in the JWT access token
+  -- who signed: the key pair (number in the observer's key ring; -1: none of them) whose public key verifies the signature
+  -- of the token (go-jose `Verify` against every public key of the ring), and the algorithm its protected header names
+  idSigner : Int := -1
+  idAlg : String := ""
+  atSigner : Int := -1
+  atAlg : String := ""
   deriving Repr, Inhabited
 
 /-- what the underlying request was -/
@@ -47,6 +53,10 @@ structure Req where
   -- the storage maps every scope it is asked about to its claims, so the claims of an ALLOWED scope must show ...
   storageFillsID : Bool := false        -- ... in the ID token (userinfo setters)
   storageFillsAT : Bool := false        -- ... in the JWT access token (private-claims getters)
+  -- the provider's CURRENT signing key: what its storage returns from `SigningKey` at the token-issuing request
+  -- (key pair number in the observer's ring, algorithm); `curKey = -1`: not recorded (lines of older streams)
+  curKey : Int := -1
+  curAlg : String := ""
   deriving Repr, Inhabited
 
 /-- user claims a scope entitles to -/
@@ -89,10 +99,16 @@ def filledClaimsOf (scope : String) : List String :=
 /-- with such a storage the claims of every ALLOWED scope must show in the token -/
 def expectedClaims (scopes : List String) : List String := scopes.flatMap filledClaimsOf
 
+/-- "signed with the provider's current signing key": the key pair that made the signature is the one the storage returns
+    for THIS issuance, used with the algorithm that key specifies -/
+def signedWithCurrent (r : Req) (signer : Int) (alg : String) : Bool :=
+  r.curKey == -1 || (signer == r.curKey && alg == r.curAlg)
+
 def judge (r : Req) (o : Obs) : Option String :=
   (if o.hasIDToken then
     let c := o.idClaims
-    if !o.rpVerifies then some "id_token-rejected-by-the-library's-RP-verifier"
+    if !signedWithCurrent r o.idSigner o.idAlg then some "id_token:not-signed-with-the-current-signing-key"
+    else if !o.rpVerifies then some "id_token-rejected-by-the-library's-RP-verifier"
     else if c.iss != r.issuer then some "id_token:iss"
     else if !c.aud.contains r.client then some "id_token:aud"
     else if c.azp != r.client then some "id_token:azp"
@@ -111,7 +127,8 @@ def judge (r : Req) (o : Obs) : Option String :=
   else none)
   |>.orElse fun _ =>
   (if o.jwtAccessToken then
-    if !o.atVerifies then some "access_token-rejected-by-op.VerifyAccessToken"
+    if !signedWithCurrent r o.atSigner o.atAlg then some "access_token:not-signed-with-the-current-signing-key"
+    else if !o.atVerifies then some "access_token-rejected-by-op.VerifyAccessToken"
     else if o.atClaims.iss != r.issuer then some "access_token:iss"
     else if o.atClaims.sub != r.subject then some "access_token:sub"
     else if !(o.atUserClaims.all (allowedAccessTokenClaims r).contains) then some "access_token:claims-beyond-granted-scopes"
